@@ -176,32 +176,28 @@ def buildBoard (raw : RawBoard) : Board :=
   { r := raw, hash := raw.zobrist, white := white, black := black, all := white ||| black,
     pieces := Tab.ofFn fun x => pieceSet raw.cells x }
 
+/-- the checks of `TryFrom<RawBoard>` on the rebuilt board: returns the board itself or the reason -/
+def checkBoard (b : Board) : Res ValidateError Board :=
+  if Gen.tooManyW b.white.len then .err (.tooManyPieces .white)
+  else if Gen.tooManyB b.black.len then .err (.tooManyPieces .black)
+  else if (b.piece2 .white .king).isEmpty then .err (.noKing .white)
+  else if (b.piece2 .black .king).isEmpty then .err (.noKing .black)
+  else if Gen.tooManyKingsW (b.piece2 .white .king).len then .err (.tooManyKings .white)
+  else if Gen.tooManyKingsB (b.piece2 .black .king).len then .err (.tooManyKings .black)
+  else
+    match ((b.piece2 .white .pawn ||| b.piece2 .black .pawn) &&& BB.ofNat Gen.badPawnPoses).first? with
+    | some p => .err (.invalidPawn p)
+    | none =>
+      match isOpponentKingAttacked? b with
+      | none => .trap "king_pos unwrap in TryFrom"
+      | some true => .err .opponentKingAttacked
+      | some false => .ok b
+
 /-- `impl TryFrom<RawBoard> for Board` -/
 def validate (raw0 : RawBoard) : Res ValidateError Board :=
   match normaliseEp raw0 with
   | .err e => .err e
   | .trap w => .trap w
-  | .ok raw1 =>
-    let raw := normaliseCastling raw1
-    let b := buildBoard raw
-    if Gen.tooManyW b.white.len then .err (.tooManyPieces .white)
-    else if Gen.tooManyB b.black.len then .err (.tooManyPieces .black)
-    else
-      let wk := b.piece2 .white .king
-      let bk := b.piece2 .black .king
-      if wk.isEmpty then .err (.noKing .white)
-      else if bk.isEmpty then .err (.noKing .black)
-      else if Gen.tooManyKingsW wk.len then .err (.tooManyKings .white)
-      else if Gen.tooManyKingsB bk.len then .err (.tooManyKings .black)
-      else
-        let pawns := b.piece2 .white .pawn ||| b.piece2 .black .pawn
-        let bad := pawns &&& BB.ofNat Gen.badPawnPoses
-        match bad.first? with
-        | some p => .err (.invalidPawn p)
-        | none =>
-          match isOpponentKingAttacked? b with
-          | none => .trap "king_pos unwrap in TryFrom"
-          | some true => .err .opponentKingAttacked
-          | some false => .ok b
+  | .ok raw1 => checkBoard (buildBoard (normaliseCastling raw1))
 
 end Owl.Impl
